@@ -150,8 +150,12 @@ func (r *recorder) install() {
 			r.emit("Hook", "site", site, "h", r.handle(obj), "a", a, "b", b, "g", vsup.Goid())
 		}
 	})
-	// the three engine-level gates are logged too (EngineTrace.tla); the queue / poller gates are not
-	vhook.SetGate(func(site string, obj any, a int) {
+	r.installGate()
+}
+
+// gateFunc: the three engine-level gates are logged too (EngineTrace.tla); the queue / poller gates are not.
+func (r *recorder) gateFunc() vhook.GateFunc {
+	return func(site string, obj any, a int) {
 		switch site {
 		case "acc.accepted":
 			c := obj.(*conn)
@@ -159,8 +163,10 @@ func (r *recorder) install() {
 		case "eng.triggered", "loop.polling-returned":
 			r.emit("Gate", "site", site, "h", 0, "idx", a, "g", vsup.Goid())
 		}
-	})
+	}
 }
+
+func (r *recorder) installGate() { vhook.SetGate(r.gateFunc()) }
 
 func (r *recorder) uninstall() { vhook.SetSink(nil); vhook.SetGate(nil) }
 
